@@ -105,6 +105,9 @@ class FramingModel:
         facts = self.facts
         if not c:
             return None
+        hl = shared.header_lookup_atom(facts, c)
+        if hl is not None and hl[0] in HEADERS:
+            return (("present", hl[0]), hl[1])
         if c[0] == "variant":
             name, cur = c[2], c[3]
             if name in ("Some", "None"):
